@@ -17,8 +17,8 @@ import (
 func TestMain(m *testing.M) { pool.Register(); ev.Main(m) }
 
 const (
-	ackDeadline     = 3 * time.Second  // acknowledgements normally arrive within microseconds
-	confirmDeadline = 15 * time.Second // the confirming re-run of a deadline miss
+	ackDeadline     = 2 * time.Second  // acknowledgements normally arrive within microseconds
+	confirmDeadline = 10 * time.Second // the confirming re-run of a deadline miss
 )
 
 var seqKinds = []string{
